@@ -612,6 +612,17 @@ def run(ctx):
         ctx.obligation("translate:hermite", False, str(ex))
         ctx.violation("translate:hermite", "translator rejected EasyFEA/FEM/Elems/_beam.py: %s" % ex, {"construct": str(ex)}, found_input=False)
         return
+    # dispatch table / einsum subscripts / rule / point-load divisor regenerated from the source
+    try:
+        from translator import C09_loads as T_loads
+        ld = T_loads.read_loads(ctx.repo)
+        open(os.path.join(ctx.build, "Gen_Loads.v"), "w").write(T_loads.emit_coq(ld))
+        ctx.obligation("translate:loads", True, "dispatch table %s; einsums %s" % ({k: v for k, v in ld["table"].items()}, ld["einsums"]))
+        files = files + ["Gen_Loads.v"] + ctx.copy_props("C09/C09_source.v")
+    except Exception as ex:
+        ctx.obligation("translate:loads", False, str(ex))
+        ctx.violation("translate:loads", "translator rejected the load machinery of Simulations/_simu.py (dispatch/thickness/einsum theorems no longer apply to the source): %s" % ex,
+                      {"construct": str(ex)}, found_input=False)
     res = ctx.coq(files, timeout=600)
     ctx.log("static theorems compiled")
     import re as _re
@@ -620,8 +631,13 @@ def run(ctx):
     mtol = _re.findall(r'\("(EULER_BERNOULLI\d)",\s*(true|false),\s*(true|false)\)', res.log)
     ctx.cov["hermite_load_identities_residual_below_1e-13"] = {k: (a == "true" and b == "true") for k, a, b in mtol}
     if not res.ok:
-        ctx.violation("coq:C09_theorems", "the property theorems no longer compile", {"log": res.log[-3000:]}, found_input=False)
-        return
+        if res.failed_file == "C09_source.v":
+            # keep going: the correspondence below finds the failing input
+            ctx.violation("coq:C09_source", "the dispatch/thickness table or the integration tokens regenerated from Simulations/_simu.py no longer agree with the model (C09_source.v does not compile)",
+                          {"log": res.log[-800:]}, found_input=False)
+        else:
+            ctx.violation("coq:C09_theorems", "the property theorems no longer compile", {"log": res.log[-3000:]}, found_input=False)
+            return
 
     cases = gen_cases(ctx)
     # a few plain cases are also run inside Coq on the implementation's quadrature data
